@@ -172,6 +172,11 @@ def run_check(prop, tier="quick", seed=0, replay=None):
         broken += [f"transgen2: {b}" for b in transgen2.regenerate()]
     except Exception as e:
         broken.append(f"transgen2 failed: {e}")
+    try:
+        from . import transgen3
+        broken += [f"transgen3: {b}" for b in transgen3.regenerate()]
+    except Exception as e:
+        broken.append(f"transgen3 failed: {e}")
     if hasattr(prop, "pregen"):
         try:
             broken += prop.pregen()
